@@ -70,7 +70,7 @@ fn get_delta_superficial_loss_info(
     let m_sfl = get_superficial_loss_ratio(idx, txs, ptf_statuses)?;
 
     let calculated_sfl_amount: LessEqualZeroDecimal = match &m_sfl {
-        Some(sfl) => LessEqualZeroDecimal::from(c_maybe_round_to_effective_cent(
+        Some(sfl) => c_maybe_round_to_effective_cent(LessEqualZeroDecimal::from(
             cap_loss.mul_pos(sfl.sfl_ratio.to_posdecimal()),
         )),
         None => LessEqualZeroDecimal::zero(),
@@ -134,12 +134,11 @@ fn get_delta_superficial_loss_info(
             },
             adjust_txs,
         )))
-    } else if let Some(sfl) = m_sfl {
-        // Automatic SFL only
+    } else if let (Some(sfl), Ok(calculated_sfl_amount)) =
+        (m_sfl, NegDecimal::try_from(*calculated_sfl_amount))
+    {
+        // Automatic SFL only (a loss that rounds to zero is no superficial loss)
 
-        // We don't need calculated_sfl_amount to be a LessEqualZeroDecimal anymore
-        let calculated_sfl_amount =
-            NegDecimal::try_from(*calculated_sfl_amount).unwrap();
         let potentially_over_applied_sfl =
             sfl.fewer_remaining_shares_than_sfl_shares;
 
